@@ -13,7 +13,9 @@ CFG = dict(
          "after reading Active, site stop.onActive, while the source ends by itself; then a Start on the same object). `rpc` (the life cycle through the real SourceControl.Start / "
          "SourceControl.Stop on the sources SourceControl owns - ErroringSource parked before its error block so the schedule picks when it ends by itself, "
          "Triangle/SimPulse configured through the real Configure requests: 1-3 rounds of Start -> self-termination before/while/after -> 1-3 concurrent Stop "
-         "requests -> Start again, no other status refresh; sometimes a Start request while running, which must be refused). After every failed Start the real "
+         "requests -> Start again, no other status refresh; sometimes a Start request while running, which must be refused). `asmReq` (the real AbacoSource on a scripted packet producer - its getNextBlock launches one "
+         "assembler goroutine per call: Start -> blocks -> 1-3 queued requests served by the core loop -> 1-2 Stops -> re-arm -> Start again; sites asm.spawn/.send/.close: "
+         "at most one acquisition step pending, nextBlock closed once). After every failed Start the real "
          "object's completion barrier is observed (runDone.Wait() returns? run-done channel closed?) and judged: Inactive <-> counter 0. The logged "
          "trace must be a run of the Lean transition system; return values, GetState(), goroutine census, writing flag and UDP-port re-bindability "
          "must equal the model's and satisfy the property oracle; a watchdog turns a hang into the output `hang 1`. Non-trivial = at least two "
@@ -59,6 +61,8 @@ THEOREMS = [
     ("DastardV.Props.C10", "DastardV.C10.lc_inv"),
     ("DastardV.Props.C10", "DastardV.C10.lc_inv_wg_nonneg"),
     ("DastardV.Props.C10", "DastardV.C10.lc_inv_no_double_close"),
+    ("DastardV.Props.C10", "DastardV.C10.C10_one_acquisition_step"),
+    ("DastardV.Props.C10", "DastardV.C10.C10_request_keeps_step"),
     ("DastardV.Props.C10", "DastardV.C10.C10_stop_decision_atomic"),
     ("DastardV.Props.C10", "DastardV.C10.C10_switch_from_active"),
     ("DastardV.Props.C10", "DastardV.C10.C10_no_stuck_state"),
@@ -84,5 +88,6 @@ HOOKS = [
     "bfffff7 Lancero mix entry, channel-number accessor",
     "3ce7ba1 VerifLoopSource.VerifFailStartRun, VerifRunDoneState",
     "95def7f stop.onActive site (inside Stop's locked decision)",
+    "79a6d14 asm.spawn / asm.send / asm.close sites in AbacoSource.getNextBlock (uses the C17 hook VerifC17Abaco for the scripted producer)",
     "75f5771, dd9a4df sc.start.enter/.refused/.failed, sc.flagOn, sc.stop.enter/.notActive, sc.refreshed sites; VerifActiveSource",
 ]
